@@ -16,7 +16,9 @@
 #include <cstring>
 #include <iostream>
 #include <sstream>
+#include <atomic>
 #include <string>
+#include <thread>
 #include <vector>
 
 using namespace llbuild;
@@ -259,6 +261,25 @@ int main() {
       std::string path = unhex(t[3]);
       FileInfo fi = t[2] == "1" ? fs->getLinkInfo(path) : fs->getFileInfo(path);
       out << infoStr(fi) << " " << (fi.isMissing() ? 1 : 0) << " " << (fi.isDirectory() ? 1 : 0);
+    } else if (op == "pfinfo") {
+      // pfinfo <fs> <repeat> <path>... : one thread per path, all started together, each observes its own path
+      // <repeat> times; prints every observation (thread-major). The lanes of a build hash files concurrently.
+      FileSystem* fs = t[1] == "local" ? local.get() : t[1] == "agnostic" ? (FileSystem*)&agnostic : (FileSystem*)&checksum;
+      int repeat = atoi(t[2].c_str());
+      std::vector<std::string> paths;
+      for (size_t i = 3; i < t.size(); ++i) paths.push_back(unhex(t[i]));
+      std::vector<std::vector<std::string>> res(paths.size());
+      std::atomic<int> ready{0};
+      std::vector<std::thread> th;
+      for (size_t i = 0; i < paths.size(); ++i)
+        th.emplace_back([&, i] {
+          ++ready;
+          while (ready.load() < (int)paths.size()) {}
+          for (int k = 0; k < repeat; ++k) res[i].push_back(infoStr(fs->getFileInfo(paths[i])));
+        });
+      for (auto& x : th) x.join();
+      bool first = true;
+      for (auto& r : res) for (auto& x : r) { out << (first ? "" : " ") << x; first = false; }
     } else if (op == "infoeq") {
       out << (parseInfo(t[1]) == parseInfo(t[2]) ? 1 : 0);
     } else if (op == "quit") {
